@@ -13,6 +13,8 @@ ToWall(t) == last' = [op |-> "wall", z |-> cur, t |-> t, out |-> Ok([w |-> Wall(
 \* explicit offsets tried: every zone offset exact, its minute rounding, a wrong one
 OffCands(z, w) == {[k |-> "none", o |-> 0], [k |-> "z", o |-> 0], [k |-> "offset", o |-> 3600 * 7 + 60 * 13]}
                   \cup {[k |-> "offset", o |-> o] : o \in AllOffsets(z)} \cup {[k |-> "offset", o |-> RoundToMinute(o)] : o \in AllOffsets(z)}
+                  \* the two whole minutes around each offset: at a 30 s tie only the one away from zero matches (half-expand)
+                  \cup {[k |-> "offset", o |-> (o \div 60) * 60] : o \in AllOffsets(z)} \cup {[k |-> "offset", o |-> (o \div 60) * 60 + 60] : o \in AllOffsets(z)}
 FromString(w, oc, dis, oo) == last' = [op |-> "interpret", z |-> cur, w |-> w, oc |-> oc, dis |-> dis, oo |-> oo,
                                        out |-> Interpret(cur, w, oc.k, oc.o, dis, oo, TRUE)] /\ UNCHANGED cur
 Next == /\ (OneStep => last = None)
